@@ -98,6 +98,15 @@ func (d Date) Less(o Date) bool  { return d.Time().Before(o.Time()) }
 func (d Date) Equal(o Date) bool { return d == o }
 func (d Date) ISO() string       { return d.Format("2006-01-02") }
 
+// ParseDate parses a date printed with the given layout.
+func ParseDate(layout, s string) (Date, error) {
+	t, err := time.Parse(layout, s)
+	if err != nil {
+		return Date{}, err
+	}
+	return Date{t.Year(), int(t.Month()), t.Day()}, nil
+}
+
 // Day is one record of the log.
 type Day struct {
 	Date  Date
